@@ -67,8 +67,8 @@ func (g Gaussian) TransformComplex(seq []complex128) []complex128 {
 //
 // The sequence weights are
 //
-//	w[k] = 0.5 * (1 + cos(π*(|k - M| - αM)/((1-α) * M))), |k - M| ≥ αM
-//	     = 1, |k - M| < αM
+//	w[k] = 0.5 * (1 + cos(π*(|k - M| - (1-α)M)/(α * M))), |k - M| ≥ (1-α)M
+//	     = 1, |k - M| < (1-α)M
 //
 // with M = (N - 1)/2 for k=0,1,...,N-1 where N is the length of the window.
 //
